@@ -170,7 +170,7 @@ def canonical(test):
     repository uses; only variants are rewritten:
       bool(x) -> x ; len(x) > 0 | >= 1 | != 0 -> x ; len(x) == 0 | < 1 -> not x ;
       CONST == x -> x == CONST (and mirrored <, <=, >, >=) ; x in (A, B) | {A, B} -> x in [A, B] ; x in [A] -> x == A ;
-      x == A or x == B -> x in [A, B] ; not a or not b -> not (a and b)."""
+      x == A or x == B -> x in [A, B].  (a false conjunction is spelt as the true disjunction of the negations: atoms())"""
     e = test
     if isinstance(e, ast.Call) and isinstance(e.func, ast.Name) and e.func.id == 'bool' and len(e.args) == 1 \
             and not e.keywords:
@@ -217,9 +217,6 @@ def canonical(test):
                    _constant_like(v.comparators[0]) for v in vals) and len({ast.unparse(v.left) for v in vals}) == 1:
                 return ast.Compare(left=vals[0].left, ops=[ast.In()],
                                    comparators=[ast.List(elts=[v.comparators[0] for v in vals], ctx=ast.Load())]), False
-            # not a or not b -> not (a and b)
-            if all(isinstance(v, ast.UnaryOp) and isinstance(v.op, ast.Not) for v in vals):
-                return ast.BoolOp(op=ast.And(), values=[v.operand for v in vals]), True
         if changed:
             return ast.BoolOp(op=e.op, values=vals), False
     return e, False
@@ -247,6 +244,20 @@ def atoms(test, pol, norm=None):
         return [a for v in test.values for a in atoms(v, pol, norm)]
     if isinstance(test, ast.NamedExpr):
         return atoms(test.value, pol, norm) + [Fact(test.target.id, pol, test.target)]
+    if isinstance(test, ast.BoolOp) and isinstance(test.op, ast.And) and not pol:
+        # normal form of a compound fact: a true disjunction (De Morgan), so that `if not (a and not b)` and
+        # `if not a or b` give the same fact
+        vals = []
+        for v in test.values:
+            if isinstance(v, ast.UnaryOp) and isinstance(v.op, ast.Not):
+                vals.append(v.operand)
+            else:
+                vals.append(ast.UnaryOp(op=ast.Not(), operand=v))
+        new = ast.BoolOp(op=ast.Or(), values=vals)
+        if hasattr(test, 'lineno'):
+            ast.copy_location(new, test)
+        ast.fix_missing_locations(new)
+        test, pol = new, True
     txt = norm.text(test) if norm else ast.unparse(test)
     out = [Fact(txt, pol, test)]
     return out
@@ -565,6 +576,44 @@ def returns(unit):
             elif isinstance(st, ast.Assert):
                 facts += atoms(st.test, True, fm.norm)
         out.append((None, tuple(facts), None))
+    return out
+
+
+def returned_values(unit):
+    """[(value node, facts)] of what the function can return, a flag local being replaced by what is assigned to it:
+    `flag = False; if c: flag = X; return flag` and `if not c: return False; return X` give the same non-default
+    entries (X under c). The initialiser of a flag (assignment at the top level of the body, no fact) is reported
+    with the pseudo-fact ('<initial>', True)."""
+    fm = factmap(unit)
+    out = []
+    for v, facts, n in returns(unit):
+        if isinstance(v, ast.Name):
+            asg = [a for a in own_nodes(unit.node) if isinstance(a, (ast.Assign, ast.AnnAssign)) and a.value is not None
+                   and any(isinstance(t, ast.Name) and t.id == v.id
+                           for t in (a.targets if isinstance(a, ast.Assign) else [a.target]))]
+            if len(asg) > 1 or (len(asg) == 1 and fm.at(asg[0])):
+                for a in asg:
+                    fs = tuple(fm.at(a)) + tuple(facts)
+                    if a in unit.node.body and not fm.at(a):
+                        fs = (Fact('<initial>', True),) + tuple(facts)
+                    out.append((a.value, fs))
+                continue
+        out.append((v, tuple(facts)))
+    return out
+
+
+def removal_sites(unit, coll):
+    """[(call, argument text, facts other than the membership test)] for the removals of an element from the collection
+    `coll` (text): `coll.remove(e)`; sa.normalise spells `coll.discard(e)` as `if e in coll: coll.remove(e)`, so the
+    fact `e in coll` at a removal only says that the removal is a tolerant one and is left out."""
+    fm = factmap(unit)
+    out = []
+    for c in own_nodes(unit.node):
+        if isinstance(c, ast.Call) and isinstance(c.func, ast.Attribute) and c.func.attr in ('remove', 'discard') \
+                and ast.unparse(c.func.value) == coll and len(c.args) == 1:
+            arg = ast.unparse(c.args[0])
+            facts = {tuple(f) for f in fm.at(c)} - {('%s in %s' % (arg, coll), True)}
+            out.append((c, arg, facts))
     return out
 
 
